@@ -500,7 +500,16 @@ def judge(ctx, scn, obs, level="L1"):
             spec = scn["upload"]
         if spec and spec.get("status") == st:
             body = spec.get("body")
-            exp = b"" if body is None else (body if isinstance(body, bytes) else body.encode("utf-8"))
+            try:
+                exp = b"" if body is None else (bytes(body) if isinstance(body, (bytes, bytearray, memoryview)) else body.encode("utf-8"))
+            except (AttributeError, UnicodeEncodeError, TypeError):
+                # a body that cannot go on the wire: no 2x stream can be "header + that body"
+                exp = None
+            if exp is None and not body and a["body"] == b"":
+                exp = b""  # (an empty container taken to mean "no body")
+            if exp is None:
+                viol("half-written", f"2x header although the handler's body ({type(body).__name__}) cannot be sent as it is; {len(a['body'])} other bytes follow the header")
+                return
             if a["body"] != exp:
                 viol("half-written", f"2x response body differs from what the handler returned ({len(a['body'])} vs {len(exp)} bytes)")
                 return
